@@ -242,8 +242,17 @@ func VerifH_init() {
 	cfgPtr, cpCopy := gb.cfg, *cp
 	_ = cpCopy
 	min0, max0, wm0, fb0, calls0, ms0, st0 := cp.MinSize, cp.MaxSize, cp.MaxConcurrentStreamsLowWatermark, cp.FallbackToReady, cp.UnresponsiveCalls, cp.UnresponsiveDetectionMs, cp.BindPickStrategy
-	if canCreate {
-		err2 := gb.UpdateClientConnState(balancer.ClientConnState{ResolverState: resolver.State{Addresses: addrs}, BalancerConfig: cfg2})
+	{
+		// a later resolver update (also one that arrives while the pool is still empty, possibly with
+		// addresses this time) must not touch the configuration
+		n2 := verifInt("naddrs2")
+		verifAssume(n2 >= 0 && n2 <= 2)
+		addrs2 := []resolver.Address{{Addr: "x"}, {Addr: "w"}}[:n2]
+		if canCreate {
+			addrs2 = addrs
+		}
+		created1 := cc.created
+		err2 := gb.UpdateClientConnState(balancer.ClientConnState{ResolverState: resolver.State{Addresses: addrs2}, BalancerConfig: cfg2})
 		verifReach("second update")
 		verifAssert(err2 == nil, "C17: second resolver update failed")
 		verifAssert(gb.cfg == cfgPtr && gb.cfg.ApiConfig.ChannelPool == cp, "C17: configuration replaced by a later resolver update")
@@ -251,7 +260,11 @@ func VerifH_init() {
 		got2, has2 := gb.methodCfg[probe]
 		verifAssert(has2 == has && got2 == got, "C17: method table changed by a later resolver update")
 		verifAssert(sh2.same(cfg2), "C17: the balancer mutated the configuration object of a later update")
-		verifAssert(cc.created == int(wantMin), "C03: second resolver update created connections")
+		if canCreate {
+			verifAssert(cc.created == int(wantMin), "C03: second resolver update created connections")
+		} else {
+			verifAssert(cc.created <= created1+1, "C03: re-creating an empty pool created more than one connection")
+		}
 	}
 	verifObserve("created", uint64(cc.created))
 	verifObserve("minSize", uint64(cp.MinSize))
